@@ -81,6 +81,7 @@ type Sim struct {
 	// extension hooks
 	afterBlockHooks []func(s *Sim)
 	statsTainted bool
+	RestartEveryBlock bool // C19: the node is rebuilt from the DB before every block (restarts must be invisible)
 	orbDigest    string
 	escrowGifts  map[string]*big.Int
 	resyncPause  bool
@@ -153,6 +154,9 @@ func (s *Sim) execBlock(op Op) {
 }
 
 func (s *Sim) produceBlock(txs []*PendingTx, dtSec int, opID int) {
+	if s.RestartEveryBlock && !s.dirtyState {
+		s.N.Restart()
+	}
 	// shadows run on the committed pre-block state
 	for _, t := range txs {
 		if m, ok := t.Meta.(*txMeta); ok && m.Kind == "recv" {
